@@ -18,11 +18,12 @@ import (
 
 // Paths of the generator-side hooks.
 const (
-	SimhookPath = "verif/sim/simhook"
-	SimrandPath = "verif/sim/simhook/simrand"
-	SimloadPath = "verif/sim/simhook/simload"
-	simhookName = "moqsimhook"
-	simloadName = "moqsimload"
+	SimhookPath  = "verif/sim/simhook"
+	SimrandPath  = "verif/sim/simhook/simrand"
+	Simrand2Path = "verif/sim/simhook/simrand2"
+	SimloadPath  = "verif/sim/simhook/simload"
+	simhookName  = "moqsimhook"
+	simloadName  = "moqsimload"
 )
 
 // GenSeamReport says what the generator seams touched.
@@ -37,6 +38,10 @@ type GenSeamReport struct {
 	GoroutinesOwned bool
 	GoroutinesNote  string
 	SharedProbes    int // files in which shared-state accesses were probed (only when moq has go statements)
+	// Concurrent: moq's own code starts goroutines or imports sync / sync/atomic,
+	// i.e. it takes a position on concurrent use; only then are two generator
+	// instances also run at the same time (the property does not ask for that)
+	Concurrent bool
 }
 
 // SeamGenerator rewrites the scratch copy of moq rooted at dir (type-driven,
@@ -59,16 +64,44 @@ func SeamGenerator(dir string, env []string, memoLoad bool, ownGoroutines bool) 
 	rep.GoroutinesOwned = ownGoroutines
 	hasGo := false
 	modPkgs := map[*types.Package]bool{}
+	// the generator proper: what the command at the module root and the library
+	// package import (test inputs and examples of the repository also contain
+	// generated mocks, which import sync)
+	core := map[string]bool{}
+	var reach func(p *packages.Package)
+	reach = func(p *packages.Package) {
+		if core[p.PkgPath] {
+			return
+		}
+		core[p.PkgPath] = true
+		for _, q := range p.Imports {
+			reach(q)
+		}
+	}
+	for _, p := range pkgs {
+		if len(p.GoFiles) > 0 && (filepath.Dir(p.GoFiles[0]) == filepath.Clean(dir) || strings.HasSuffix(p.PkgPath, "/pkg/moq")) {
+			reach(p)
+		}
+	}
 	for _, p := range pkgs {
 		modPkgs[p.Types] = true
+		if len(core) > 0 && !core[p.PkgPath] {
+			continue
+		}
 		for i, f := range p.Syntax {
 			if i < len(p.CompiledGoFiles) && strings.HasPrefix(p.CompiledGoFiles[i], dir) && !strings.HasSuffix(p.CompiledGoFiles[i], "_test.go") {
 				ast.Inspect(f, func(n ast.Node) bool {
 					if _, ok := n.(*ast.GoStmt); ok {
 						hasGo = true
+						rep.Concurrent = true
 					}
 					return true
 				})
+				for _, im := range f.Imports {
+					if ip := strings.Trim(im.Path.Value, `"`); ip == "sync" || ip == "sync/atomic" {
+						rep.Concurrent = true
+					}
+				}
 			}
 		}
 	}
@@ -168,6 +201,23 @@ func SeamGenerator(dir string, env []string, memoLoad bool, ownGoroutines bool) 
 						dirty = true
 						return true
 					}
+					if fn, ok := p.TypesInfo.Uses[t.Sel].(*types.Func); ok && fn.Pkg() != nil && (fn.Pkg().Path() == "maps" || fn.Pkg().Path() == "golang.org/x/exp/maps") {
+						// iterators and slices in map iteration order
+						to := ""
+						switch {
+						case fn.Pkg().Path() == "maps" && (fn.Name() == "Keys" || fn.Name() == "Values" || fn.Name() == "All"):
+							to = "Maps" + fn.Name()
+						case fn.Pkg().Path() != "maps" && (fn.Name() == "Keys" || fn.Name() == "Values"):
+							to = "X" + fn.Name()
+						}
+						if _, isCall := c.Parent().(*ast.CallExpr); to != "" && isCall {
+							rep.RangeSites = append(rep.RangeSites, fmt.Sprintf("%s:%d (%s.%s)", rel, p.Fset.Position(t.Pos()).Line, fn.Pkg().Path(), fn.Name()))
+							c.Replace(&ast.SelectorExpr{X: ast.NewIdent(simhookName), Sel: ast.NewIdent(to)})
+							usesHook = true
+							dirty = true
+							return true
+						}
+					}
 					if fn, ok := p.TypesInfo.Uses[t.Sel].(*types.Func); ok && fn.Pkg() != nil && fn.Pkg().Path() == "time" {
 						switch fn.Name() {
 						case "Now", "Since", "Until":
@@ -200,9 +250,11 @@ func SeamGenerator(dir string, env []string, memoLoad bool, ownGoroutines bool) 
 			if usesRt {
 				astutil.AddNamedImport(p.Fset, f, simrtName, SimrtPath)
 			}
-			// the clock rewrite may have left "time" unused
-			if !astutil.UsesImport(f, "time") {
-				astutil.DeleteImport(p.Fset, f, "time")
+			// the rewrites may have left "time" or "maps" unused
+			for _, ip := range []string{"time", "maps", "golang.org/x/exp/maps"} {
+				if !astutil.UsesImport(f, ip) {
+					astutil.DeleteImport(p.Fset, f, ip)
+				}
 			}
 			var buf bytes.Buffer
 			if err := format.Node(&buf, p.Fset, f); err != nil {
@@ -213,7 +265,7 @@ func SeamGenerator(dir string, env []string, memoLoad bool, ownGoroutines bool) 
 			}
 		}
 	}
-	redirect := map[string]string{"math/rand": SimrandPath}
+	redirect := map[string]string{"math/rand": SimrandPath, "math/rand/v2": Simrand2Path}
 	if rep.GoroutinesOwned {
 		redirect["sync"] = SimsyncPath
 		redirect["sync/atomic"] = SimatomicPath
